@@ -419,6 +419,8 @@ type FakeServer struct {
 	// StallPosts: once set, every further POST is read and then left without a response until its peer gives up.
 	StallPosts atomic.Bool
 	Accepted   atomic.Int64 // legacy: requests acknowledged with 202
+	// SessionSuffix, when set, replaces the tail of the issued session ids (ids are opaque: they may end in anything, digits included)
+	SessionSuffix string
 
 	mu      sync.Mutex
 	counts  map[string]int
@@ -531,7 +533,7 @@ func (f *FakeServer) ServeHTTP(w http.ResponseWriter, r *http.Request) {
 		if method == "initialize" {
 			f.mu.Lock()
 			f.seq++
-			sid := fmt.Sprintf("fake-session-%04d-0123456789abcdef", f.seq)
+			sid := f.sessionID(f.seq)
 			f.mu.Unlock()
 			w.Header().Set("Mcp-Session-Id", sid)
 		} else if sid := r.Header.Get("Mcp-Session-Id"); sid != "" {
@@ -721,7 +723,14 @@ func (f *FakeServer) lastIssued() string {
 	if f.seq == 0 || f.Legacy {
 		return ""
 	}
-	return fmt.Sprintf("fake-session-%04d-0123456789abcdef", f.seq)
+	return f.sessionID(f.seq)
+}
+
+func (f *FakeServer) sessionID(n int) string {
+	if f.SessionSuffix != "" {
+		return fmt.Sprintf("fake-session-%04d-%s", n, f.SessionSuffix)
+	}
+	return fmt.Sprintf("fake-session-%04d-0123456789abcdef", n)
 }
 
 // statusWriter records the status code of a response.
